@@ -62,6 +62,7 @@ var c07Letters = func() []c07Letter {
 	plain("SetNReg(1,false,.)", func(d ivg.Destination, set int) { d.SetNReg(1, false, c07v(set, 2, 2.1)) })
 	plain("SetLOD(0,0)", func(d ivg.Destination, set int) { d.SetLOD(0, 0) })
 	plain("SetLOD(0,+Inf)", func(d ivg.Destination, set int) { d.SetLOD(0, float32(math.Inf(1))) })
+	plain("SetLOD(80,20)", func(d ivg.Destination, set int) { d.SetLOD(80, 20) }) // an inverted range: nothing is drawn
 	plain("11xSetCReg(0,true)", func(d ivg.Destination, set int) {
 		for i := 0; i < 11; i++ {
 			d.SetCReg(0, true, rgba(uint8(i), 0, 0, 0xff))
@@ -173,7 +174,7 @@ var c07Core = func() []int {
 	keep := map[string]bool{"SetCSel(10)": true, "SetCSel(63)": true, "SetCSel(74)": true, "SetNSel(10)": true, "SetNSel(63)": true, "SetNSel(201)": true,
 		"SetCReg(0,true,red)": true, "SetCReg(1,false,blend)": true, "SetCReg(0,true,blend)": true, "SetNReg(0,true,.)": true, "SetNReg(1,false,.)": true,
 		"11xSetCReg(0,true)": true, "Reset": true, "CSel()": true, "NSel()": true, "SetGradient(2 stops)": true, "SetLinearGradient": true, "SetCircularGradient": true,
-		"SetPathData(adj1)": true, "probe": true, "arcs": true, "SetLOD(0,0)": true, "SetLOD(0,+Inf)": true, "long runs": true}
+		"SetPathData(adj1)": true, "probe": true, "arcs": true, "SetLOD(0,0)": true, "SetLOD(0,+Inf)": true, "SetLOD(80,20)": true, "long runs": true}
 	var c []int
 	for i, l := range c07Letters {
 		if keep[l.name] {
@@ -191,7 +192,7 @@ func init() {
 	mc.Register(&mc.Check{
 		ID:    "C07",
 		Level: "model_checking",
-		Rule: fmt.Sprintf("engine S: every history of <=3 letters over a %d-letter alphabet, extended by <=2 letters of a 24-letter core alphabet (thorough: every history of <=5 letters over the full alphabet with both argument sets, and every history of 6 letters over the core alphabet) (SetCSel/SetNSel at {0,9,10,62,63} and at arguments >= 64 (74, 201), incrementing and non-incrementing register writes incl. an incrementing write of a blend and of a palette index, CSel()/NSel() read-backs, Generator helpers SetGradient (2 and 3 stops), SetLinearGradient, SetCircularGradient, SetEllipticalGradient, SetPathData, a probe path with selector read-backs inside it, an arc path with unequal flags and both close-and-move operations, a path with runs of 20 and 35 lines and 18 curves and zero-length steps before smooth operations, SetLOD(0,0) and SetLOD(0,+Inf)); the Encoder of every other history is a zero-value one that is never Reset, run in lock step through Generator->Renderer and Generator->Encoder->Decode->Renderer (histories <=3 also through DestinationLogger), two argument sets (dyadic, non-dyadic). ", nl) +
+		Rule: fmt.Sprintf("engine S: every history of <=3 letters over a %d-letter alphabet, extended by <=2 letters of a 25-letter core alphabet (thorough: every history of <=5 letters over the full alphabet with both argument sets, and every history of 6 letters over the core alphabet) (SetCSel/SetNSel at {0,9,10,62,63} and at arguments >= 64 (74, 201), incrementing and non-incrementing register writes incl. an incrementing write of a blend and of a palette index, CSel()/NSel() read-backs, Generator helpers SetGradient (2 and 3 stops), SetLinearGradient, SetCircularGradient, SetEllipticalGradient, SetPathData, a probe path with selector read-backs inside it, an arc path with unequal flags and both close-and-move operations, a path with runs of 20 and 35 lines and 18 curves and zero-length steps before smooth operations, SetLOD(0,0), SetLOD(0,+Inf) and the inverted SetLOD(80,20)); the Encoder of every other history is a zero-value one that is never Reset, and in every third history its owner calls Bytes() after every relative line, run in lock step through Generator->Renderer and Generator->Encoder->Decode->Renderer (histories <=3 also through DestinationLogger), two argument sets (dyadic, non-dyadic). ", nl) +
 			"After every call the Encoder's and the Renderer's CSel()/NSel() must agree modulo 64 with each other and with the specification VM; helper return values must agree; at the end both recording rasterisers must hold the same calls and paints (bit-equal for the dyadic set, within the C01 tolerance otherwise). " +
 			"states = histories executed, transitions = letters executed; non-trivial = history containing a gradient helper or an incrementing write followed by a read-back",
 		Assumptions: []string{"non-dyadic argument set: rasteriser coordinates compared within 2^-17 relative to the raster size, gradient matrices within 2^-19 relative"},
@@ -272,6 +273,14 @@ func init() {
 	})
 }
 
+// c07Tap is an Encoder whose owner calls Bytes() after every RelLineTo.
+type c07Tap struct{ *encode.Encoder }
+
+func (t c07Tap) RelLineTo(x, y float32) {
+	t.Encoder.RelLineTo(x, y)
+	t.Encoder.Bytes()
+}
+
 type c07State struct {
 	w *mc.W
 }
@@ -301,10 +310,15 @@ func (st *c07State) check(cs *c07Case) {
 	// pipeline 2: Generator -> Encoder
 	var e encode.Encoder
 	var g2 generate.Generator
-	g2.SetDestination(&e)
 	sum := 0
 	for _, l := range cs.Letters {
 		sum += l
+	}
+	if sum%3 == 1 {
+		// the caller looks at the bytes so far after every relative line, also inside open paths
+		g2.SetDestination(c07Tap{&e})
+	} else {
+		g2.SetDestination(&e)
 	}
 	if sum%2 == 0 {
 		g2.Reset(ivg.DefaultViewBox, ivg.DefaultPalette)
@@ -412,7 +426,8 @@ func (st *c07State) check(cs *c07Case) {
 	}
 	w.Trace()
 	if cs.Logger {
-		if b4, err4 := e4.Bytes(); err4 != nil || !bytes.Equal(b4, bs) {
+		// (with the tap the runs of pipeline 2 are cut where Bytes() was called: other bytes, same meaning)
+		if b4, err4 := e4.Bytes(); err4 != nil || (sum%3 != 1 && !bytes.Equal(b4, bs)) {
 			fail("logger:bytes-differ", fmt.Sprintf("through DestinationLogger the Encoder yields %x (err %v), without it %x", b4, err4, bs))
 			return
 		}
